@@ -289,9 +289,9 @@ Print Assumptions C18_checkers_nonvacuous.
 
 (* ---- tie to the source by regeneration (DESIGN.md 4.2): the CRS codes of common/consts read from /repo's current source ---- *)
 From SIDGen Require Generated.
-From SID Require GenEqConst.
+From SID Require GenEqConstCrs.
 Theorem C18_generated_crs_codes : Generated.GeoCrs = 4326%Z /\ Generated.OrthCrs = 3857%Z.
-Proof. split; [exact GenEqConst.gen_GeoCrs_eq | exact GenEqConst.gen_OrthCrs_eq]. Qed.
+Proof. split; [exact GenEqConstCrs.gen_GeoCrs_eq | exact GenEqConstCrs.gen_OrthCrs_eq]. Qed.
 Print Assumptions C18_generated_crs_codes.
 
 (* ---- the backward direction restated over the float kernels REGENERATED from the Go source (coq/generated/GeneratedF.v):
